@@ -16,6 +16,7 @@ EXPLANATION = ('The REAL Client and AsyncClient (http_session= seam, stubbed req
 STUBS = SIM_STUBS + ['client side: requests.Session / websocket.create_connection / aiohttp session replaced by stubs talking to the '
                      'scripted server; Client.start_background_task/create_queue/create_event/sleep overridden with kernel-backed '
                      'equivalents; module global asyncio of async_client = shim; real aiohttp exception / WSMsgType classes']
+# (second connection of the same client object: it must be connected, transmit only what the application sends, and hear the server)
 OUTSIDE = SIM_OUTSIDE + ['the SIGINT registry', 'real sockets, TLS, proxies and the cookie / auth code of _connect_websocket', 'more than 2 connect cycles']
 NOT_CONSTRAINED = ['an OPEN packet whose JSON lacks fields (sid, pingInterval, ...)']
 ASSUMPTIONS = ['cooperative scheduling only; virtual integer time']
